@@ -118,6 +118,27 @@ type Op struct {
 	TTL  uint64   `json:"ttl,omitempty"`
 	Prev string   `json:"prev,omitempty"` // CAS expected value code, "-" = expect not exist
 	Rep  int      `json:"rep,omitempty"`  // key list repeated Rep times (more than rawBatchPairCount keys per region)
+	// FillN copies of the key Fill after (FillFirst: before) the key list: a region's key group is
+	// cut into several sub-batches whose contents differ, so that a sub-batch sharing storage with
+	// another one, or a cut at the wrong index, loses or duplicates a key that occurs only once.
+	Fill      string `json:"fill,omitempty"`
+	FillN     int    `json:"filln,omitempty"`
+	FillFirst bool   `json:"fillfirst,omitempty"`
+}
+
+func (o Op) keyList() [][]byte {
+	ks := bs(o.Keys, o.Rep)
+	if o.FillN == 0 {
+		return ks
+	}
+	fill := make([][]byte, o.FillN)
+	for i := range fill {
+		fill[i] = []byte(o.Fill)
+	}
+	if o.FillFirst {
+		return append(fill, ks...)
+	}
+	return append(ks, fill...)
 }
 
 func (o Op) String() string {
@@ -173,6 +194,10 @@ func alphabet(thorough bool) []Op {
 	}
 	ops = append(ops, Op{K: "BatchGet", Keys: []string{"a", "b", "c", "d"}, Rep: 300})
 	ops = append(ops,
+		Op{K: "BatchGet", Keys: []string{"b", "c", "d"}, Fill: "a", FillN: 600},
+		Op{K: "BatchGet", Keys: []string{"b", "c", "d"}, Fill: "a", FillN: 600, FillFirst: true},
+		Op{K: "BatchGet", Keys: []string{"a", "c", "b"}, Fill: "d", FillN: 1100})
+	ops = append(ops,
 		Op{K: "BatchPut", Keys: []string{"a", "b", "c", "d"}, Vals: []string{"1", "1", "1", "1"}},
 		Op{K: "BatchPut", Keys: []string{"a", "b", "c", "d"}, Vals: []string{"2", "2", "2", "2"}},
 		Op{K: "BatchPut", Keys: []string{"c", "d"}, Vals: []string{"1", "2"}},
@@ -185,6 +210,9 @@ func alphabet(thorough bool) []Op {
 		ops = append(ops, Op{K: "BatchDelete", Keys: ks})
 	}
 	ops = append(ops, Op{K: "BatchDelete", Keys: []string{"c", "d"}, Rep: 300})
+	ops = append(ops,
+		Op{K: "BatchDelete", Keys: []string{"b", "c"}, Fill: "a", FillN: 600},
+		Op{K: "BatchDelete", Keys: []string{"c", "d"}, Fill: "a", FillN: 600, FillFirst: true})
 	lows := []string{"", "a", "b", "c", "d"}
 	for _, s := range lows {
 		for _, e := range lows {
@@ -735,7 +763,7 @@ func (e *env) call(op Op) (r result) {
 	case "Delete":
 		r.err = c.Delete(ctx, []byte(op.Keys[0]))
 	case "BatchGet":
-		r.vals, r.err = c.BatchGet(ctx, bs(op.Keys, op.Rep))
+		r.vals, r.err = c.BatchGet(ctx, op.keyList())
 	case "BatchPut":
 		r.err = c.BatchPut(ctx, bs(op.Keys, op.Rep), vs(op.Vals))
 	case "BatchPutTTL":
@@ -745,7 +773,7 @@ func (e *env) call(op Op) (r result) {
 		}
 		r.err = c.BatchPutWithTTL(ctx, bs(op.Keys, op.Rep), vs(op.Vals), ttls)
 	case "BatchDelete":
-		r.err = c.BatchDelete(ctx, bs(op.Keys, op.Rep))
+		r.err = c.BatchDelete(ctx, op.keyList())
 	case "DeleteRange":
 		r.err = c.DeleteRange(ctx, bound(op.S), bound(op.E))
 	case "Scan":
@@ -900,7 +928,7 @@ func check(m model, op Op, r result) ([]mismatch, model) {
 		if r.err != nil {
 			return unexpectedErr(), n
 		}
-		keys := bs(op.Keys, op.Rep)
+		keys := op.keyList()
 		if len(r.vals) != len(keys) {
 			return []mismatch{{"result", fmt.Sprintf("%d values for %d keys", len(r.vals), len(keys))}}, n
 		}
@@ -930,7 +958,8 @@ func check(m model, op Op, r result) ([]mismatch, model) {
 		if r.err != nil {
 			return unexpectedErr(), n
 		}
-		for _, k := range op.Keys {
+		for _, kb := range op.keyList() {
+			k := string(kb)
 			delete(n, k)
 		}
 	case "DeleteRange":
